@@ -1,6 +1,7 @@
 ENGINES = [
     {"name": "native", "path": "/verif/harness (bin vh)", "serves_properties": [], "kind_free_text": "release build of the harness with hooks on; real signals, Director failpoints, canaries, event log + offline checkers"},
     {"name": "miri", "path": "/verif/harness (bins m_*)", "serves_properties": [], "kind_free_text": "cargo +nightly miri run, -Zmiri-many-seeds sharded over processes: UB, data races under the declared orderings, leaks"},
+    {"name": "vha", "path": "/verif/harness-async (bin vha)", "serves_properties": ["C11"], "kind_free_text": "the real signal-hook-async-std Signals stream driven by async_io::block_on against close() from another thread"},
     {"name": "asan", "path": "/verif/harness (bin vh, -Zsanitizer=address)", "serves_properties": [], "kind_free_text": "AddressSanitizer build of the same workloads (thorough tier)"},
 ]
 NOTES = "Family: runtime monitoring and sanitizers. Verdicts are three-valued: exit 0 held / exit 1 + VIOLATION line / exit 2 INCONCLUSIVE (no VIOLATION line). See DESIGN.md."
@@ -43,7 +44,7 @@ META.update({
  "C11": dict(engine="native", category="fault_enumeration",
    technique="failpoint sweep: consumer (or closer) paused at each iterator hook site while close() runs on another thread; stable-stuck-state probe; callback-consultation log per poll_signal call",
    text="Every (front-end, site, occurrence, delivery) point is run deterministically and a few hundred random-timing trials on top; is_closed is checked on every clone, the consumer must end (forever stays ended, wait never blocks again), and each Pending result must have been preceded in the same call by a callback consultation answering 'nothing'.",
-   note="instants = hook sites x both orders + random; the harness plays the async adapter"),
+   note="instants = hook sites x both orders + random + closer and consumer pinned to one CPU; the real async-std stream is run as well (next() racing close()), tokio's is not"),
 })
 META.update({
  "C12": dict(engine="native forked probes (+valgrind in thorough)", category="exploration",
